@@ -58,13 +58,20 @@ pub struct OnceCellStub { pub x: u8 }
 pub struct CumulativePropagationHandler {
     pub explanation_type: CumulativeExplanationType,
     pub stored_profile_explanation: OnceCellStub,
+    // ghost: the profile the cached explanation was built for (None: the cache is empty)
+    pub cached_for: Ghost<Option<(int, int)>>,
 }
+pub open spec fn pid<Var>(p: &ResourceProfile<Var>) -> (int, int) { (p.start as int, p.end as int) }
 impl CumulativePropagationHandler {
+    // the cache is empty or belongs to `p` (the protocol: next_profile() empties it; unit cumulative_sequence checks the callers)
+    pub open spec fn cache_ok<Var>(&self, p: &ResourceProfile<Var>) -> bool { self.cached_for@ is None || self.cached_for@ == Some(pid(p)) }
     // TRUSTED (naive / big-step profile explanation: every profile task covers the whole profile)
     #[verifier::external_body]
     fn get_stored_profile_explanation_or_init<Var: IntegerVariable>(&mut self, context: &mut PropagationContextMut, profile: &ResourceProfile<Var>) -> (r: Rc<PropositionalConjunction>)
-        requires profile_mandatory(profile, old(context).live())
+        requires profile_mandatory(profile, old(context).live()),
+                 old(self).cache_ok(profile),     // otherwise the OnceCell hands back the explanation of ANOTHER profile
         ensures *final(context) == *old(context), final(self).explanation_type == old(self).explanation_type,
+                final(self).cached_for@ == Some(pid(profile)),
                 forall|a: Asg| #![trigger (old(context).live())(a)] (old(context).live())(a) ==> conj_holds(*r, a),
                 forall|a: Asg, t: int| #![trigger conj_holds(*r, a), all_run_at(profile, a, t)] conj_holds(*r, a) && profile.start <= t <= profile.end ==> all_run_at(profile, a, t),
     { unimplemented!() }
